@@ -7,6 +7,7 @@ import (
 	"github.com/kardiachain/go-kardia/kai/state/cstate"
 	"github.com/kardiachain/go-kardia/lib/log"
 	"github.com/kardiachain/go-kardia/lib/p2p"
+	kproto "github.com/kardiachain/go-kardia/proto/kardiachain/types"
 	"github.com/kardiachain/go-kardia/types"
 	"time"
 )
@@ -83,4 +84,22 @@ func (cs *ConsensusState) VerifState() cstate.LatestBlockState {
 	cs.mtx.RLock()
 	defer cs.mtx.RUnlock()
 	return cs.state.Copy()
+}
+
+// VerifProposerIndex returns the index of the current round's proposer in the validator set.
+func (cs *ConsensusState) VerifProposerIndex() int {
+	cs.mtx.RLock()
+	defer cs.mtx.RUnlock()
+	idx, _ := cs.Validators.GetByAddress(cs.Validators.GetProposer().Address)
+	return idx
+}
+
+// VerifSetPeerMaj23 does what ConsensusManager.Receive does for a VoteSetMaj23Message of the current height.
+func (cs *ConsensusState) VerifSetPeerMaj23(height uint64, round uint32, t kproto.SignedMsgType, peer p2p.ID, id types.BlockID) error {
+	cs.mtx.Lock()
+	defer cs.mtx.Unlock()
+	if cs.Height != height {
+		return nil
+	}
+	return cs.Votes.SetPeerMaj23(round, t, peer, id)
 }
